@@ -913,6 +913,15 @@ impl Stream for ReadStream {
             g.push("append.beyond", format!("read.append bytes={}", hex(&b)));
             g.push("mem.beyond", format!("read.mem bytes={}", hex(&b)));
         }
+        // (g2) ZIP64 end records that lie about BOTH the entry count and the directory offset (count <= offset):
+        // the pre-allocation guard must compare the count with where the end record was FOUND, never with a
+        // declared offset
+        for (cnt, off) in [(1u64 << 20, 1u64 << 20), (1 << 20, 1 << 40), (1 << 24, u64::MAX - 100), (1 << 61, 1 << 62), (70000, 70000), (300, 1 << 32)] {
+            let mut b = eocd64_liar(&[], cnt);
+            b[48..56].copy_from_slice(&off.to_le_bytes());
+            g.push("mem.liar64off", format!("read.mem bytes={}", hex(&b)));
+            g.push("seek.liar64off", format!("read.seek bytes={} codec=-", hex(&b)));
+        }
         for n in if thorough { vec![50usize, 400, 3000] } else { vec![50usize, 400] } {
             let entries: Vec<Entry> = (0..n).map(|i| Entry::stored(format!("f{i}").as_bytes(), b"")).collect();
             let b = mkzip::build(&Layout::new(entries)).bytes;
